@@ -13,7 +13,8 @@ LEVEL = 'exploration'
 RULE = ('send: 1-5 method calls through DBusClientConnection.callRemote on a UNIX-socket transport double, each with '
         '0-3 unix-fd arguments (top level, in arrays, in structs) mixed with plain values; oracle: for every call the '
         'transport saw sendFileDescriptor for each descriptor in argument order, then the write of that message, whose '
-        'header declares exactly that count and whose h arguments are the indices 0..k-1 (strict reference decoder). '
+        'header declares exactly that count and whose h arguments are the indices 0..k-1 (strict reference decoder); a '
+        'call with one unusable descriptor (-1) is either sent in full or refused with nothing handed to the transport. '
         'recv: a stream of 1-6 reference-encoded messages (all four types, descriptor-carrying calls among them) and '
         'a schedule of fd-arrival and read events drawn subject only to stream order (descriptors in sending order, '
         'each no later than the read that completes its message, arbitrarily early otherwise), with byte-level read '
@@ -77,6 +78,8 @@ def send_case(draw, tier):
     for _ in range(draw(st.integers(1, 5))):
         sig, trees, nh = draw(fd_args())
         calls.append({'sig': sig, 'trees': trees, 'nh': nh, 'pres': draw(S.presentation)})
+        if nh and draw(st.integers(0, 5)) == 0:
+            calls[-1]['bad_at'] = draw(st.integers(0, 5))
     return {'calls': calls}
 
 
@@ -122,22 +125,39 @@ def run_send(case):
     try:
         rig.sent_messages()
         for idx, call in enumerate(case['calls']):
+            if call.get('bad_at') is not None and call['nh']:
+                # one descriptor (not necessarily the first) is unusable: the call may be refused, but then nothing of it
+                # may have been handed to the transport - orphan descriptors would be taken for the next message's
+                toks0 = _tokens(call['sig'], call['trees'])
+                bad = toks0[call['bad_at'] % len(toks0)]
+                call = dict(call, trees=_replace_tokens(call['sig'], call['trees'], lambda t, bad=bad: -1 if t == bad else t))
             body = S.to_py_list(call['sig'], call['trees'], call['pres']) if call['sig'] else None
             results = []
+            refused = False
             try:
                 d = rig.conn.callRemote('/obj', 'Take', interface='org.verif.Fd', destination='org.verif.Peer',
                                         signature=call['sig'] or None, body=body)
                 d.addBoth(results.append)
             except Exception as e:
-                out.append(Disc(exc_key(e, 'send.callRemote'), exc_detail(e)))
-                continue
+                if call.get('bad_at') is None:
+                    out.append(Disc(exc_key(e, 'send.callRemote'), exc_detail(e)))
+                    continue
+                refused = True
             if results:
-                out.append(Disc('send.call-failed-early', repr(results[0])))
-                continue
+                if call.get('bad_at') is None:
+                    out.append(Disc('send.call-failed-early', repr(results[0])))
+                    continue
+                refused = True
             try:
                 ev = rig.sent_messages()
             except (R.RefError, AssertionError) as e:
                 out.append(Disc('send.malformed-output', str(e)))
+                continue
+            if refused:
+                if ev:
+                    out.append(Disc('send.refused-call-left-something-on-the-transport',
+                                    'call %d (descriptors %r) failed, yet the transport got %r' % (
+                                        idx, _tokens(call['sig'], call['trees']), [(e[0], e[1] if e[0] == 'fd' else '...') for e in ev])))
                 continue
             toks = _tokens(call['sig'], call['trees'])
             exp_fd = [('fd', t) for t in toks]
@@ -180,6 +200,8 @@ def classify_send(case):
         labels.append('>=2 fd calls')
     if any(x >= 2 for x in nh):
         labels.append('multi_fd_call')
+    if any(c.get('bad_at') is not None and c['nh'] for c in case['calls']):
+        labels.append('unusable_descriptor')
     return sum(nh) > 0, labels
 
 
